@@ -37,9 +37,17 @@ func verifStubICalDecode(dec *ical.Decoder) (*ical.Calendar, error) {
 type verifBody struct {
 	r     io.Reader
 	empty bool
+	fails bool
 }
 
+// verifBodyUnreadable: the request body fails on its first Read (a broken
+// chunk header, a body closed by middleware).
+var verifBodyUnreadable bool
+
 func (b *verifBody) Read(p []byte) (int, error) {
+	if b.fails {
+		return 0, io.ErrUnexpectedEOF
+	}
 	if b.empty {
 		return 0, io.EOF
 	}
@@ -63,6 +71,10 @@ const verifValidICal = "BEGIN:VCALENDAR\r\nVERSION:2.0\r\nPRODID:-//x//y//EN\r\n
 func verifRequest(method, path string, hdr http.Header, xmlBody interface{}, xmlBroken bool, rawBody string, emptyBody bool) *http.Request {
 	r := &http.Request{Method: method, URL: &url.URL{Path: path}, Header: hdr}
 	internal.VerifRequestBody, internal.VerifRequestBodyErr = xmlBody, xmlBroken
+	if verifBodyUnreadable {
+		r.Body = &verifBody{fails: true}
+		return r
+	}
 	if vrt.Symbolic() {
 		r.Body = &verifBody{empty: emptyBody}
 		return r
@@ -256,6 +268,8 @@ func symReportBody() (interface{}, bool) {
 // update or delete call of the backend.
 func VerifH_C13_Handler() {
 	internal.VerifResetWire()
+	verifBodyUnreadable = false
+	defer func() { verifBodyUnreadable = false }()
 	verifBogusExpand = false
 	internal.VerifCopyHook = verifCopy
 	be := &verifBackend{principal: "/dav/u/", homeSet: "/dav/u/cal/"}
@@ -399,7 +413,16 @@ func VerifH_C13_Handler() {
 		symHeaderValue(hdr, "If-Match", []string{"*", "\"e\""})
 		symHeaderValue(hdr, "If-None-Match", []string{"*"})
 	case "MKCOL":
-		switch vrt.Choose("mkcol-body", 3) {
+		switch vrt.Choose("mkcol-body", 4) {
+		case 3:
+			// the body cannot be read at all: the request cannot be
+			// interpreted, nothing may be created
+			hdr.Set("Content-Type", "text/xml")
+			verifBodyUnreadable = true
+			xmlBroken = true
+			if path == verifLevelPaths[3] {
+				malformed = true
+			}
 		case 0:
 			emptyBody = true
 		case 1:
